@@ -705,6 +705,103 @@ func rulePC2(p *Prog) *RuleResult {
 			}
 		}
 		if n == 0 {
+			// the loop may live in a helper of its own that is called after the growth with the old sign
+			// position as an argument: signExtendFrom(oldSignPos)
+			for _, b := range f.Blocks {
+				for _, ins := range b.Instrs {
+					call, ok := ins.(*ssa.Call)
+					if !ok {
+						continue
+					}
+					g := call.Call.StaticCallee()
+					if g == nil || g.Blocks == nil || g.Signature.Recv() == nil || len(call.Call.Args) == 0 || len(f.Params) == 0 || call.Call.Args[0] != ssa.Value(f.Params[0]) || len(growBlocks(g)) > 0 {
+						continue
+					}
+					for _, gb := range g.Blocks {
+						for _, gi := range gb.Instrs {
+							ph, ok := gi.(*ssa.Phi)
+							if !ok || len(ph.Edges) != 2 {
+								continue
+							}
+							var start ssa.Value
+							var step *ssa.BinOp
+							for i, e := range ph.Edges {
+								if bo, isB := ph.Edges[1-i].(*ssa.BinOp); isB && bo.Op == token.ADD && isConstInt(bo.Y, 1) && bo.X == ssa.Value(ph) {
+									if _, isC := constIntVal(e); !isC {
+										start, step = e, bo
+									}
+								}
+							}
+							if step == nil || len(planeIndexUses(p, g, ph)) == 0 {
+								continue
+							}
+							n++
+							c := fmt.Sprintf("%s|sign-extension loop#%d", name, n)
+							// start = parameter + k, resolved with the argument of the call
+							sa := aff{}
+							startBefore := false
+							if bo, ok := start.(*ssa.BinOp); ok && bo.Op == token.ADD {
+								if prm, ok := bo.X.(*ssa.Parameter); ok {
+									if k, isC := constIntVal(bo.Y); isC {
+										for pi, gp := range g.Params {
+											if gp == prm && pi < len(call.Call.Args) {
+												aa := evalAff(call.Call.Args[pi], 0)
+												var al []*ssa.UnOp
+												affLoads(call.Call.Args[pi], 0, &al)
+												if aa.ok {
+													sa = aff{aa.a, aa.c + k, true}
+													startBefore = len(al) == 1 && !afterGrowth(al[0])
+												}
+											}
+										}
+									}
+								}
+							}
+							var bound ssa.Value
+							incl := false
+							for _, b2 := range g.Blocks {
+								if ifi, ok := b2.Instrs[len(b2.Instrs)-1].(*ssa.If); ok {
+									if cmp, ok := ifi.Cond.(*ssa.BinOp); ok && cmp.X == ssa.Value(ph) {
+										switch cmp.Op {
+										case token.LSS:
+											bound = cmp.Y
+										case token.LEQ:
+											bound, incl = cmp.Y, true
+										}
+									}
+								}
+							}
+							if bound == nil {
+								res.undecided(c, p.ipos(ph), "loop condition not recognised")
+								continue
+							}
+							ba := evalAff(bound, 0)
+							if incl {
+								ba.c++
+							}
+							// the helper reads len(bA) itself; it must be called after the growth
+							callAfterGrowth := true
+							for _, gb2 := range grow {
+								if blockReaches(call.Block(), gb2) && gb2 != call.Block() {
+									callAfterGrowth = false
+								}
+							}
+							switch {
+							case !sa.ok || !ba.ok:
+								res.undecided(c, p.ipos(ph), "start or bound of the sign-extension helper is not an affine expression of len(bA)")
+							case !(sa.a == 1 && sa.c == 0 && startBefore):
+								res.bad(c, p.ipos(ph), fmt.Sprintf("the helper starts at %s of the array before growth: new planes below it are not sign-extended", affString(sa)))
+							case !(ba.a == 1 && ba.c == 0 && callAfterGrowth):
+								res.bad(c, p.ipos(ph), fmt.Sprintf("the helper stops before %s of the grown array (called after growth: %v): the new top (sign) plane is not filled", affString(ba), callAfterGrowth))
+							default:
+								res.ok(c, p.ipos(ph), "planes [old len(bA), new len(bA)) via "+fname(g))
+							}
+						}
+					}
+				}
+			}
+		}
+		if n == 0 {
 			res.undecided(name+"|sign-extension", p.pos(f.Pos()), "no sign-extension loop found in a widening operation")
 		}
 	}
